@@ -132,7 +132,7 @@ func evalSeqScenario(rt ring.Type, logN int, ch rk.Chain, bound int) engine.Scen
 				sig = known + "#"
 			}
 			Q := qAt(p, st.level)
-			var out *rlwe.Ciphertext
+			var out, ref *rlwe.Ciphertext
 			var want []*big.Int
 			err, pan := uni.Try(func() error {
 				galEl := gLate
@@ -147,55 +147,59 @@ func evalSeqScenario(rt ring.Type, logN int, ch rk.Chain, bound int) engine.Scen
 					hoisted = false // no P: the hoisted forms need one; plain Automorphism instead
 					c.Cover("rejected", "evalseq/hoisted-without-P->plain")
 				}
+				// The operation of this step, on evaluator ev: run once on a FRESH evaluator (reference) and
+				// once on the evaluator that carries the history of the previous steps.
+				degree := 1
 				if st.op == 4 {
+					degree = 2
 					if set.RelinearizationKey == nil {
 						set.RelinearizationKey = kgen.GenRelinearizationKeyNew(sk, kp.evk())
 						c.Cover("evalseq-key", "rlk-added-after-creation")
 					}
-					ct := uniformCt(p, 2, st.level, st.isNTT, name, cfg, "ct", i)
-					want = rk.Phase(rt, rQ, &ct.Element, s)
-					out = ct
-					if i%2 == 0 {
-						out = rlwe.NewCiphertext(p, 1, p.MaxLevel())
-					}
-					in := *ct.MetaData
-					if err := eval.Relinearize(ct, out); err != nil {
-						return err
-					}
-					if !metaEqual(out.MetaData, &in) {
-						return fmt.Errorf("metadata not propagated")
-					}
-					return nil
+				} else {
+					need(galEl)
 				}
-				need(galEl)
-				ct := uniformCt(p, 1, st.level, st.isNTT, name, cfg, "ct", i)
-				want = rk.CenterAll(rk.Auto(rt, rk.Phase(rt, rQ, &ct.Element, s), galEl), Q)
+				ct := uniformCt(p, degree, st.level, st.isNTT, name, cfg, "ct", i)
+				ph := rk.Phase(rt, rQ, &ct.Element, s)
+				if st.op == 4 {
+					want = ph
+				} else {
+					want = rk.CenterAll(rk.Auto(rt, ph, galEl), Q)
+				}
 				in := *ct.MetaData
+				run := func(ev *rlwe.Evaluator, ct, out *rlwe.Ciphertext) (*rlwe.Ciphertext, error) {
+					switch {
+					case st.op == 4:
+						return out, ev.Relinearize(ct, out)
+					case !hoisted:
+						return out, ev.Automorphism(ct, galEl, out)
+					case st.op == 1:
+						ev.DecomposeNTT(st.level, kp.levelP, kp.levelP+1, ct.Value[1], st.isNTT, ev.BuffDecompQP)
+						return out, ev.AutomorphismHoisted(st.level, ct, ev.BuffDecompQP, galEl, out)
+					default:
+						ev.DecomposeNTT(st.level, kp.levelP, kp.levelP+1, ct.Value[1], st.isNTT, ev.BuffDecompQP)
+						ctQP := rlwe.NewElementExtended(p, 1, st.level, kp.levelP)
+						ctQP.IsNTT = st.isNTT
+						if err := ev.AutomorphismHoistedLazy(st.level, ct, ev.BuffDecompQP, galEl, ctQP); err != nil {
+							return nil, err
+						}
+						o := rlwe.NewCiphertext(p, 1, st.level)
+						o.IsNTT = st.isNTT
+						ev.ModDown(st.level, kp.levelP, ctQP, o)
+						*o.MetaData = in
+						return o, nil
+					}
+				}
+				var err error
+				if ref, err = run(rlwe.NewEvaluator(p, set), ct.CopyNew(), rlwe.NewCiphertext(p, 1, p.MaxLevel())); err != nil {
+					return fmt.Errorf("on a fresh evaluator: %w", err)
+				}
 				out = ct
 				if i%2 == 0 {
 					out = rlwe.NewCiphertext(p, 1, p.MaxLevel())
 				}
-				switch {
-				case !hoisted:
-					if err := eval.Automorphism(ct, galEl, out); err != nil {
-						return err
-					}
-				case st.op == 1:
-					eval.DecomposeNTT(st.level, kp.levelP, kp.levelP+1, ct.Value[1], st.isNTT, eval.BuffDecompQP)
-					if err := eval.AutomorphismHoisted(st.level, ct, eval.BuffDecompQP, galEl, out); err != nil {
-						return err
-					}
-				default:
-					eval.DecomposeNTT(st.level, kp.levelP, kp.levelP+1, ct.Value[1], st.isNTT, eval.BuffDecompQP)
-					ctQP := rlwe.NewElementExtended(p, 1, st.level, kp.levelP)
-					ctQP.IsNTT = st.isNTT
-					if err := eval.AutomorphismHoistedLazy(st.level, ct, eval.BuffDecompQP, galEl, ctQP); err != nil {
-						return err
-					}
-					out = rlwe.NewCiphertext(p, 1, st.level)
-					out.IsNTT = st.isNTT
-					eval.ModDown(st.level, kp.levelP, ctQP, out)
-					*out.MetaData = in
+				if out, err = run(eval, ct, out); err != nil {
+					return err
 				}
 				if !metaEqual(out.MetaData, &in) {
 					return fmt.Errorf("metadata not propagated: %+v -> %+v", in, *out.MetaData)
@@ -217,6 +221,21 @@ func evalSeqScenario(rt ring.Type, logN int, ch rk.Chain, bound int) engine.Scen
 			c.Cover("evalseq-op", opName)
 			if !judge(c, ksig(sig, "phase"), what, rt, rQ, out, s, want, bnd) {
 				return
+			}
+			// Evaluation is deterministic: the evaluator with a history must return the same residues as a
+			// fresh one (an operation that reads scratch left by an earlier call adds a valid-looking but
+			// history-dependent term, typically noise well inside any worst-case bound).
+			if ref.Level() != out.Level() {
+				c.Fail(ksig(sig, "differs-from-fresh-evaluator"), "%s: level %d on the used evaluator, %d on a fresh one", what, out.Level(), ref.Level())
+				return
+			}
+			for d := range out.Value {
+				a := rk.PolyCoeffs(rQ, out.Value[d], st.level, false, false)
+				b := rk.PolyCoeffs(rQ, ref.Value[d], st.level, false, false)
+				if !rk.Equal(a, b) {
+					c.Fail(ksig(sig, "differs-from-fresh-evaluator"), "%s: component %d of the result differs (mod Q) from the result of the same call on a fresh evaluator", what, d)
+					return
+				}
 			}
 		}
 		c.Count(evalSeqLen)
